@@ -238,59 +238,155 @@ fn declared_area<R: Read>(st: &H263State, o: u8, r: &mut H263Reader<R>) -> u64 {
     }
 }
 
-/// One history: returns the output line (without index).
-pub fn run_history(full: bool, o: u8, ops: &[&str]) -> String {
-    let mut st = H263State::new(opts_of(o));
-    let src = Grow(Rc::new(RefCell::new(VecDeque::new())));
-    let mut session = H263Reader::from_source(src.clone());
-    let mut out = String::new();
-    for op in ops {
-        out.push_str(" | ");
+/// One decoder instance with its session reader, stepped one operation at a time.
+pub struct Runner {
+    full: bool,
+    o: u8,
+    st: H263State,
+    src: Grow,
+    session: H263Reader<Grow>,
+    dead: bool,
+}
+
+impl Runner {
+    pub fn new(full: bool, o: u8) -> Self {
+        let src = Grow(Rc::new(RefCell::new(VecDeque::new())));
+        Runner { full, o, st: H263State::new(opts_of(o)), src: src.clone(), session: H263Reader::from_source(src), dead: false }
+    }
+
+    /// decode -> deblock every plane with the strength tabulated for the quantizer -> RGBA
+    fn pipeline(&self) -> String {
+        match self.st.get_last_picture() {
+            None => "pipe:none".to_string(),
+            Some(d) => {
+                let (w, h) = d.format().into_width_and_height().unwrap_or((0, 0));
+                let q = d.as_header().quantizer as usize;
+                let s = h263_rs_deblock::deblock::QUANT_TO_STRENGTH[q.min(31)];
+                let (y, cb, cr) = d.as_yuv();
+                let cw = d.chroma_samples_per_row();
+                let y2 = h263_rs_deblock::deblock::deblock(y, w as usize, s);
+                let cb2 = h263_rs_deblock::deblock::deblock(cb, cw, s);
+                let cr2 = h263_rs_deblock::deblock::deblock(cr, cw, s);
+                let rgba = h263_rs_yuv::bt601::yuv420_to_rgba(&y2, &cb2, &cr2, w as usize);
+                format!("pipe:ok:{}:{}:{}", rgba.len(), (w as usize) * (h as usize) * 4, plane_str(self.full, &rgba))
+            }
+        }
+    }
+
+    pub fn step(&mut self, op: &str) -> String {
+        if self.dead {
+            return String::new();
+        }
         let arg = if op.len() > 2 { &op[2..] } else { "" };
         let c = op.as_bytes()[0];
+        let full = self.full;
+        let o = self.o;
         let tok: Result<String, ()> = catch(|| match c {
             b'D' => {
                 let data = unhex(arg);
                 let mut r = H263Reader::from_source(&data[..]);
-                if declared_area(&st, o, &mut r) > 16777216 {
+                if declared_area(&self.st, o, &mut r) > 16777216 {
                     return "excluded".to_string();
                 }
-                match st.decode_next_picture(&mut r) {
-                    Ok(()) => format!("ok {} next={}", state_str(full, &st), next_str(&mut r)),
-                    Err(e) => format!("err:{} {} next={}", err_name(&e), state_str(full, &st), next_str(&mut r)),
+                match self.st.decode_next_picture(&mut r) {
+                    Ok(()) => format!("ok {} next={}", state_str(full, &self.st), next_str(&mut r)),
+                    Err(e) => format!("err:{} {} next={}", err_name(&e), state_str(full, &self.st), next_str(&mut r)),
                 }
             }
             b'S' | b'R' => {
                 if c == b'S' {
-                    src.0.borrow_mut().extend(unhex(arg));
+                    self.src.0.borrow_mut().extend(unhex(arg));
                 }
-                if declared_area(&st, o, &mut session) > 16777216 {
+                if declared_area(&self.st, o, &mut self.session) > 16777216 {
                     return "excluded".to_string();
                 }
-                match st.decode_next_picture(&mut session) {
-                    Ok(()) => format!("ok {} next={}", state_str(full, &st), next_str(&mut session)),
-                    Err(e) => format!("err:{} {} next={}", err_name(&e), state_str(full, &st), next_str(&mut session)),
+                match self.st.decode_next_picture(&mut self.session) {
+                    Ok(()) => format!("ok {} next={}", state_str(full, &self.st), next_str(&mut self.session)),
+                    Err(e) => {
+                        format!("err:{} {} next={}", err_name(&e), state_str(full, &self.st), next_str(&mut self.session))
+                    }
                 }
             }
             b'C' => {
-                st.cleanup_buffers();
-                format!("cleanup {}", state_str(full, &st))
+                self.st.cleanup_buffers();
+                format!("cleanup {}", state_str(full, &self.st))
             }
-            b'B' => match session.read_bits::<u32>(arg.parse().unwrap()) {
+            b'B' => match self.session.read_bits::<u32>(arg.parse().unwrap()) {
                 Ok(v) => format!("bits={}", v),
                 Err(e) => format!("bits:err:{}", err_name(&e)),
             },
+            b'X' => self.pipeline(),
             _ => panic!("bad op"),
         });
         match tok {
-            Ok(t) => out.push_str(&t),
+            Ok(t) => t,
             Err(()) => {
-                out.push_str("panic");
-                break;
+                self.dead = true;
+                "panic".to_string()
             }
         }
     }
+}
+
+/// One history: returns the output line (without index).
+pub fn run_history(full: bool, o: u8, ops: &[&str]) -> String {
+    let mut r = Runner::new(full, o);
+    let mut out = String::new();
+    for op in ops {
+        if r.dead {
+            break;
+        }
+        out.push_str(" | ");
+        out.push_str(&r.step(op));
+    }
     out
+}
+
+/// threads <nthreads> <seed> <cases>: every thread owns the decoders of the histories assigned to it
+/// (round robin) and steps them in a seeded interleaving with yields; the output of each history must be
+/// what the same history gives when run alone (compared by the caller with `decode` output).
+pub fn threads(mode: &str, nthreads: usize, seed: u64, path: &str) {
+    let full = mode == "full";
+    let lines = read_lines(path);
+    let results: Vec<Vec<(String, String)>> = std::thread::scope(|sc| {
+        let mut hs = vec![];
+        for t in 0..nthreads {
+            let lines = &lines;
+            hs.push(sc.spawn(move || {
+                let mine: Vec<&String> = lines.iter().enumerate().filter(|(i, _)| i % nthreads == t).map(|(_, l)| l).collect();
+                let parsed: Vec<Vec<&str>> = mine.iter().map(|l| l.split_whitespace().collect()).collect();
+                let mut runners: Vec<Runner> = parsed.iter().map(|f| Runner::new(full, f[1].parse().unwrap())).collect();
+                let mut pos: Vec<usize> = vec![2; parsed.len()];
+                let mut outs: Vec<String> = vec![String::new(); parsed.len()];
+                let mut s = seed.wrapping_mul(0x9E3779B97F4A7C15).wrapping_add(t as u64 + 1);
+                loop {
+                    let live: Vec<usize> = (0..parsed.len()).filter(|&k| pos[k] < parsed[k].len() && !runners[k].dead).collect();
+                    if live.is_empty() {
+                        break;
+                    }
+                    s ^= s << 13;
+                    s ^= s >> 7;
+                    s ^= s << 17;
+                    let k = live[(s % live.len() as u64) as usize];
+                    let tok = runners[k].step(parsed[k][pos[k]]);
+                    outs[k].push_str(" | ");
+                    outs[k].push_str(&tok);
+                    pos[k] += 1;
+                    if s & 3 == 0 {
+                        std::thread::yield_now();
+                    }
+                }
+                parsed.iter().zip(outs).map(|(f, o)| (f[0].to_string(), o)).collect::<Vec<_>>()
+            }));
+        }
+        hs.into_iter().map(|h| h.join().unwrap()).collect()
+    });
+    let mut all: Vec<(String, String)> = results.into_iter().flatten().collect();
+    all.sort_by_key(|(i, _)| i.parse::<u64>().unwrap_or(0));
+    let mut o = out();
+    for (i, l) in all {
+        writeln!(o, "{}{}", i, l).unwrap();
+    }
 }
 
 /// cases: `<idx> <opts> <op>...`; a per-case watchdog thread would not be able to stop a
